@@ -330,7 +330,7 @@ func init() {
 			if tier == "quick" {
 				out = append(out, c04Scope(spSingle(enum.Eax, 3, 4, 2), all), c04Scope(spSingle(enum.Eax, 3, 5, 3), all), c04Scope(spSingle(enum.Esh, 3, 5, 3), all))
 				out = append(out, c04Scope(spPair("B2", enum.Eax, 3, 3, 3, 4), all), c04Scope(spTwo(enum.Esh, 3, 3, 4), all))
-				out = append(out, c04Scope(spRects(enum.Eax, 4, 5), all), c04Scope(spNest(enum.Eax, 4, false, 5), nestOps), c04Scope(spThree(enum.Eax, 13, 5), all), c04Scope(spBars(15, false, 6), nestOps))
+				out = append(out, c04Scope(spRects(enum.Eax, 4, 5), all), c04Scope(spNest(enum.Eax, 4, false, 5), nestOps), c04Scope(spThree(enum.Eax, 13, 5), all), c04Scope(spBars(15, false, 6), nestOps), c04Scope(spTwoLevel(11, 7, 5), all), c04Scope(spThree(enum.Ean, 17, 5), all))
 				return out
 			}
 			for _, e := range []enum.Embed{enum.Eax, enum.Esh, enum.Ean} {
